@@ -3,9 +3,9 @@
 import json, sys
 fid, commit = sys.argv[1], sys.argv[2]
 kf = json.load(open('/verif/known_findings.json'))
-f = [x for x in kf['open'] if x['id'] == fid][0]
-kf['open'].remove(f)
-f['status'] = 'fixed'; f['commit'] = commit
-kf['fixed'].append({"line": "fixed: property=%s %s %s (witness %s)" % (f['property'], commit, f['what'], f.get('witness', '-')), "detail": f})
+for f in [x for x in kf['open'] if x['id'] == fid]:   # the same defect may be listed under several properties
+    kf['open'].remove(f)
+    f['status'] = 'fixed'; f['commit'] = commit
+    kf['fixed'].append({"line": "fixed: property=%s %s %s (witness %s)" % (f['property'], commit, f['what'], f.get('witness', '-')), "detail": f})
 json.dump(kf, open('/verif/known_findings.json', 'w'), indent=1)
 print("fixed", fid)
